@@ -57,7 +57,43 @@ var c03std = []error{ociregistry.ErrBlobUnknown, ociregistry.ErrManifestUnknown,
 
 // sameError: same success/failure and the same OCI code; headOnly relaxes to the status
 // class for body-less HEAD-based calls (404 for any *_UNKNOWN).
+// c03emptyRepo is set by c03call before each call: the addressed repository holds no
+// content in either registry (it is unknown, or known but empty). The reference
+// semantics allows a repository without content to be reported either as unknown or as
+// empty (properties C02/C03 share that model), and the two sides may differ in which of
+// the two they do: a push that fails its digest check leaves an empty repository behind
+// when it travels as POST + PUT, and none when it is a direct PushBlob. So for such a
+// repository NAME_UNKNOWN, BLOB_UNKNOWN and MANIFEST_UNKNOWN count as the same answer,
+// as does an empty listing.
+var c03emptyRepo bool
+
+// c03emptyAnswerOK: the current call is a listing, for which "unknown repository" on one
+// side may pair with a successful empty listing on the other.
+var c03emptyAnswerOK bool
+
+func c03notFound(e error) bool {
+	return errors.Is(e, ociregistry.ErrBlobUnknown) || errors.Is(e, ociregistry.ErrManifestUnknown) || errors.Is(e, ociregistry.ErrNameUnknown)
+}
+
+func c03repoEmpty(w *c03world, r *ocimem.Registry, repo string) bool {
+	ctx := context.Background()
+	empty := true
+	for _, d := range []ociregistry.Digest{w.bdig, w.b2dig} {
+		_, err := r.ResolveBlob(ctx, repo, d)
+		empty = empty && err != nil
+	}
+	_, err := r.ResolveManifest(ctx, repo, w.mdig)
+	empty = empty && err != nil
+	tags, _ := ociregistry.All(r.Tags(ctx, repo, ""))
+	return empty && len(tags) == 0
+}
+
 func c03sameError(direct, viaHTTP error, headOnly bool) bool {
+	if c03emptyRepo && (direct == nil || c03notFound(direct)) && (viaHTTP == nil || c03notFound(viaHTTP)) && (direct != nil || viaHTTP != nil) {
+		// unknown vs. empty: only acceptable for answers that carry no content; callers
+		// compare contents separately when both succeed
+		return c03notFound(direct) && c03notFound(viaHTTP) || c03emptyAnswerOK
+	}
 	if (direct == nil) != (viaHTTP == nil) {
 		return false
 	}
@@ -128,24 +164,31 @@ func c03sameState(w *c03world, a, b *ocimem.Registry) bool {
 func VerifC03_OneHop() {
 	w := &c03world{blob: verifBytes("blob", 1), blob2: []byte("zz"), man: []byte("manifest-bytes")}
 	w.bdig, w.b2dig, w.mdig = digest.FromBytes(w.blob), digest.FromBytes(w.blob2), digest.FromBytes(w.man)
+	calls := verifParam("calls", 1)
 	withContent := verifBool("withContent")
-	c03mt = c03mts[verifChoose("mediaType", len(c03mts))]
-	regD := c03prepare(w, withContent)
-	regS := c03prepare(w, withContent)
-	opts := &Options{
-		OmitDigestFromTagGetResponse: verifBool("omitDigest"),
-		OmitLinkHeaderFromResponses:  verifBool("omitLink"),
-		DisableSinglePostUpload:      verifBool("noSinglePost"),
-	}
-	// optionally the logging wrapper sits between the server and the registry
-	var backend ociregistry.Interface = regS
-	if verifBool("withDebugWrapper") {
-		backend = ocidebug.New(regS, func(string, ...any) {})
+	opts := &Options{}
+	var regD, regS *ocimem.Registry
+	var backend ociregistry.Interface
+	if calls == 1 {
+		c03mt = c03mts[verifChoose("mediaType", len(c03mts))]
+		regD, regS = c03prepare(w, withContent), c03prepare(w, withContent)
+		opts.OmitDigestFromTagGetResponse = verifBool("omitDigest")
+		opts.OmitLinkHeaderFromResponses = verifBool("omitLink")
+		opts.DisableSinglePostUpload = verifBool("noSinglePost")
+		backend = regS
+		// optionally the logging wrapper sits between the server and the registry
+		if verifBool("withDebugWrapper") {
+			backend = ocidebug.New(regS, func(string, ...any) {})
+		}
+	} else {
+		// two-call histories: default options, one media type, no wrapper
+		c03mt = c03mts[0]
+		regD, regS = c03prepare(w, withContent), c03prepare(w, withContent)
+		backend = regS
 	}
 	c, _ := vsStack(backend, opts)
 	// calls=1: one call from the prepared state; calls=2 (thorough): every two-call
 	// history (the second call's choices are named repo2, digest2, tag2, method2)
-	calls := verifParam("calls", 1)
 	for ci := 0; ci < calls; ci++ {
 		sfx := ""
 		if ci > 0 {
@@ -160,6 +203,8 @@ func VerifC03_OneHop() {
 func c03call(w *c03world, regD, regS *ocimem.Registry, c ociregistry.Interface, sfx string) {
 	ctx := context.Background()
 	repo := []string{"a/b", "c"}[verifChoose("repo"+sfx, 2)]
+	c03emptyRepo = c03repoEmpty(w, regD, repo) && c03repoEmpty(w, regS, repo)
+	c03emptyAnswerOK = false
 	digs := []ociregistry.Digest{w.bdig, w.b2dig, w.mdig}
 	dig := digs[verifChoose("digest"+sfx, 3)]
 	tag := []string{"t1", "t2"}[verifChoose("tag"+sfx, 2)]
@@ -225,7 +270,9 @@ func c03call(w *c03world, regD, regS *ocimem.Registry, c ociregistry.Interface, 
 			verifAssert(d1.Digest == d2.Digest && d1.Size == d2.Size, "PushBlob-same-descriptor")
 		}
 	case 8:
-		from := []string{"a/b", "c"}[verifChoose("from", 2)]
+		from := []string{"a/b", "c"}[verifChoose("from"+sfx, 2)]
+		// (the source repository may be the content-less one)
+		c03emptyRepo = c03emptyRepo || (c03repoEmpty(w, regD, from) && c03repoEmpty(w, regS, from))
 		d1, e1 := regD.MountBlob(ctx, from, repo, dig)
 		d2, e2 := c.MountBlob(ctx, from, repo, dig)
 		verifAssert(c03sameError(e1, e2, false), "MountBlob-same-error")
@@ -257,6 +304,7 @@ func c03call(w *c03world, regD, regS *ocimem.Registry, c ociregistry.Interface, 
 		at := []string{"", "application/x-artifact", "application/x-other"}[verifChoose("artifactType"+sfx, 3)]
 		r1, e1 := ociregistry.All(regD.Referrers(ctx, repo, dig, at))
 		r2, e2 := ociregistry.All(c.Referrers(ctx, repo, dig, at))
+		c03emptyAnswerOK = len(r1) == 0 && len(r2) == 0
 		verifAssert(c03sameError(e1, e2, false), "Referrers-same-error")
 		if e1 == nil && e2 == nil {
 			same := len(r1) == len(r2)
@@ -270,6 +318,7 @@ func c03call(w *c03world, regD, regS *ocimem.Registry, c ociregistry.Interface, 
 	default:
 		t1, e1 := ociregistry.All(regD.Tags(ctx, repo, ""))
 		t2, e2 := ociregistry.All(c.Tags(ctx, repo, ""))
+		c03emptyAnswerOK = len(t1) == 0 && len(t2) == 0
 		verifAssert(c03sameError(e1, e2, false), "Tags-same-error")
 		if e1 == nil && e2 == nil {
 			same := len(t1) == len(t2)
